@@ -930,7 +930,12 @@ def _read_num(  # pylint: disable=too-many-locals,too-many-statements
         else:
             sig = float(m) if "." in (m := match.group(1)) else int(m)
             exp = int(match.group(2))
-            res = sig * (10**exp)
+            try:
+                res = sig * (10**exp)
+            except OverflowError:
+                raise ctx.syntax_error(
+                    f"Invalid number format: {s} is out of range for a float"
+                ) from None
             return -res if neg else res
     elif (match := arbitrary_base_literal.fullmatch(s)) is not None:
         base = int(match.group(1))
